@@ -145,7 +145,64 @@ def _cmp_flip(tree):
     return count
 
 
-TWINS = {"cmp-flip": _cmp_flip, "rename-locals": lambda t: _rename_locals(t, every=True), "if-swap": _if_swap, "inert": _inert, "hoist-temps": _hoist_temps}
+_PURE_CALLS = ("np.", "numpy.", "math.", "len", "range", "isinstance", "tuple", "list", "dict", "int", "float", "str", "abs", "min", "max", "sum", "zip", "enumerate", "type")
+
+
+def _pure_simple(st):
+    if not isinstance(st, ast.Assign) or len(st.targets) != 1:
+        return False
+    t = st.targets[0]
+    if not (isinstance(t, ast.Name) or (isinstance(t, ast.Attribute) and isinstance(t.value, ast.Name) and t.value.id == "self")):
+        return False
+    for c in ast.walk(st.value):
+        if isinstance(c, ast.Call):
+            d = ast.unparse(c.func)
+            if not (d.startswith(_PURE_CALLS) or d.endswith((".copy", ".get"))):
+                return False
+        if isinstance(c, (ast.Yield, ast.YieldFrom, ast.Await, ast.NamedExpr, ast.Lambda)):
+            return False
+    return True
+
+
+def _rw(st):
+    t = st.targets[0]
+    w = {ast.unparse(t)}
+    r = set()
+    for x in ast.walk(st.value):
+        if isinstance(x, ast.Name):
+            r.add(x.id)
+        elif isinstance(x, ast.Attribute):
+            r.add(ast.unparse(x))
+    return r, w
+
+
+def _reorder(tree):
+    """Swap adjacent, mutually independent, side-effect-free assignments (disjoint pairs) in every block."""
+    count = 0
+    for n in ast.walk(tree):
+        if isinstance(n, ast.FunctionDef) and n.decorator_list:
+            continue
+        for fld in ("body", "orelse", "finalbody"):
+            lst = getattr(n, fld, None)
+            if not (isinstance(lst, list) and lst and isinstance(lst[0], ast.stmt)) or isinstance(n, (ast.ClassDef, ast.Module)):
+                continue
+            i = 0
+            while i + 1 < len(lst):
+                a, b = lst[i], lst[i + 1]
+                if _pure_simple(a) and _pure_simple(b):
+                    ra, wa = _rw(a)
+                    rb, wb = _rw(b)
+                    dep = any(w == x or x.startswith(w + ".") or w.startswith(x + ".") for w in wa for x in rb | wb) or any(w == x or x.startswith(w + ".") or w.startswith(x + ".") for w in wb for x in ra)
+                    if not dep:
+                        lst[i], lst[i + 1] = b, a
+                        count += 1
+                        i += 2
+                        continue
+                i += 1
+    return count
+
+
+TWINS = {"reorder": _reorder, "cmp-flip": _cmp_flip, "rename-locals": lambda t: _rename_locals(t, every=True), "if-swap": _if_swap, "inert": _inert, "hoist-temps": _hoist_temps}
 
 
 def run_for(prop, rule, model):
